@@ -285,3 +285,108 @@ CLAIMED['C15'] = dict(
 )
 
 NOT_CLAIMED = {}
+
+
+# ---------------------------------------------------------------------------------------------------
+# Closed-world layer (Props/CxxW.lean, CxxT.lean): theorems about EVERY state the whole event loop
+# can reach.  The texts above describe the one-call / component theorems; what they list as "NOT
+# proved" has since been proved and is replaced here.
+def _cut(pid, marker, tail):
+    t = CLAIMED[pid]['text']
+    i = t.find(marker)
+    CLAIMED[pid]['text'] = (t[:i] if i >= 0 else t + ' ') + tail
+
+
+def _add(pid, tail, note=None, technique=None):
+    CLAIMED[pid]['text'] += ' ' + tail
+    if note:
+        CLAIMED[pid]['note'] += ' ' + note
+    if technique:
+        CLAIMED[pid]['technique'] = technique
+
+
+_add('C01', 'CLOSED WORLD (Props/C01W.lean): every floor and world function of the model changes the event queue only through '
+     'library queue operations (env_refines_<f> for all 50 functions), so the queue invariants, dispatch order, clock '
+     'monotonicity, executed-at-most-once and the run(d) specification hold in every world reachable by constructor calls, '
+     'operations, simulateInit, runBegin, step and runLoop (dispatch_order_world, clock_monotone_world, executed_once_world, '
+     'run_ends_world); whole simulations (families floor, floorm) are compared too.',
+     technique='Lean 4 invariant proof by induction over operation lists, lifted to the whole world model by a refinement proof + differential correspondence + regenerated facts')
+_add('C07', 'CLOSED WORLD (Props/C01W.lean): cancelled_never_runs_world, cancelled_stays_world, remaining_delay_world: the '
+     'pause/cancel theorems hold for the events of every reachable world (machines that are shut down, restored and fail '
+     'pause, resume and cancel their own events: families floorm, floorpf).')
+_add('C09', 'CLOSED WORLD (Props/C11W.lean rmInv_reachable): the manager invariant holds in every reachable world of the floor model.')
+_add('C10', 'CLOSED WORLD (Props/C11W.lean): check_pending (a feasible waiting request always has a live check event due now), '
+     'no_feasible_waiting_at_advance / no_feasible_waiting_when_clock_advances in every reachable world.')
+_cut('C12', 'The event glue', 'CLOSED WORLD (Props/C12W.lean, class S + Fresh, each clause shown necessary by a checked counterexample): in every '
+     'reachable world bookkeeping_reachable (Inv and CapOK of every maintainer), active_has_one_event / event_has_order (every '
+     'active order has exactly one live START or FINISH event and vice versa; the "unknown order" branches are unreachable), '
+     'start_step / finish_step / exact_duration (the FINISH event and record are stamped exactly start + the duration read at '
+     'the start), hookLog_reachable / hook_counts (start and end hooks exactly once per order, cost once), '
+     'nothing_startable_reachable (no queued order that fits is left waiting), log_well_bracketed.')
+CLAIMED['C12']['note'] = BASE_NOTE + ' Hypotheses: class S (no create in scripts, maintainer ids distinct from device ids and not paused by scripts, durations and needed capacities >= 0, at most 256 maintainers).'
+_add('C16', 'CLOSED WORLD (Props/C16W.lean): vinv_reachable (every device and maintainer), source_value_reachable (value = initial - '
+     'cost of supplied parts, amount read before the hand-over), sink_value_reachable, maintainer_value_reachable, '
+     'other_value_reachable in every reachable state of NoCreate worlds. The net value over equally named assets is checked '
+     'on the real code (harness/c16.py).')
+_add('C20', 'CLOSED WORLD (Props/C20W.lean): registration frame theorems (one entry, asset id = index + 1, others untouched), '
+     'reg_reachable / count_reachable (an instrumented model counts initialisations: exactly 1 per registered asset once '
+     'started, 0 before), simulateInit_idem, create_started (late creation = registration + initAsset at now), '
+     'create_commutes (for a not-started world creating before or after simulateInit gives the SAME world, queue included, '
+     'under the decidable side condition CommuteOK; three checked counterexamples show when it fails), invariants survive '
+     'creation (Good, ConsS, C09.Inv), late_processor_bookkeeping (uptime clock starts at creation).')
+_cut('C02', 'Tie: families floor/floorc/floors', 'DYNAMIC WORLDS (Props/C02W.lean): conservation_reachable_dyn for worlds whose scripts and external operations REWIRE '
+     'devices and CREATE devices, groups, maintainers, schedulers and sensors while running (class Dyn; 14 decide-checked '
+     'counterexamples show every clause necessary), budget_reachable_dyn, held_once_reachable_dyn. Tie: families '
+     'floor/floorc/floors/floorq and sys/floorl (creation while running) vs the real code on slots, part contents, sink '
+     'counts, failure log and shutdown callbacks; census monitor on implementation traces after every event.')
+_cut('C03', 'NOT proved: the global invariant', 'CLOSED WORLD (Props/C03W.lean): no_lost_wakeup_reachable: in every reachable state at which the clock is about to advance, '
+     'every ready part is genuinely blocked (Wake invariant: a live attempt is queued for now, or the holder is flagged and no '
+     'downstream would accept), for scope S1 = sources, handlers, processors without resource requirements, buffers, gates, '
+     'sinks with arbitrary wiring, failures, maintenance, blocking and budget changes; give_answer (give answers exactly '
+     'wouldAccept). The proof attempt with batches produced the counterexample that is finding F12 (repaired). Processors '
+     'with resource requirements, batchers and groups are outside S1: there the property is CHECKED on the real code by the '
+     'deep-copy probe at every clock advance and by correspondence.')
+CLAIMED['C03']['note'] = BASE_NOTE + ' Partial: closed-world theorem for scope S1; resources/batchers/groups by probe and correspondence. "run returns": per-scenario watchdog.'
+_add('C05', 'CLOSED WORLD (Props/C05W.lean): bufOK_reachable / bufOK_exec for every buffer of every reachable state of ANY topology '
+     '(self-loops included), queue_step (FIFO: the queue after a step is drop k ++ new, every dropped entry waited its delay). '
+     'Off the dyadic grid the minimum-delay clause is checked on the real code in exact rational arithmetic (harness/c05.py).')
+_cut('C08', 'NOT proved: the closed-world invariant', 'CLOSED WORLD (Props/C08W.lean): give_history_exact (through any nesting of gates, paths, group inputs/outputs the history grows by '
+     'exactly the chain walked), route_reachable: in every reachable state of a Static world of any topology every history '
+     'is a walk along configured connections from a source to the holder and every path stack is the exact bracket structure '
+     '(Stacks without batchers; gates_accept_now without batchers and callbacks - two checked counterexamples show why). The '
+     'idle-longest rule is additionally checked by a monitor that keeps its own idle clock. Tie: correspondence of all '
+     'histories and stacks; routing monitors.')
+_cut('C17', 'NOT proved: the end-to-end', 'CLOSED WORLD (Props/C17W.lean): batcher_wf_reachable, sizes_reachable (exact batch sizes in every reachable state), '
+     'order_step / order_reachable_closed (across any step the leaf sequence of a batcher only grows at the end by arriving '
+     'parts or loses the output at the front). Tie: leaf-order and batch-history monitors, correspondence on batch-heavy families.')
+_cut('C11', 'NOT proved: the global', 'CLOSED WORLD (Props/C11W.lean): in every reachable state procInv_reachable, part_only_while_holding, ownedBy_reachable, '
+     'usage_sum_reachable, release_pending / release_paused, no_idle_holder_at_advance, holders_at_advance (when the clock '
+     'advances every holder has a part in process or is shut down). Tie: monitor at every clock advance, correspondence.')
+_cut('C04', 'serial_timing (the executable', 'serial_timing is PROVED IN FULL (Props/C04W.lean): for every well-formed serial line of any length (handlers, processors, '
+     'buffers with capacities and delays, zero cycle times), every budget, seed, weight modulus, horizon and sufficient fuel, '
+     'the logged entry times of every station equal the reference and the sink count equals the reference count; '
+     'serial_line_completes (explicit fuel bound), weight_independence. On the real code the statement is evaluated exactly on '
+     'every run by the reference monitor on 300+ random serial lines.')
+CLAIMED['C04']['note'] = BASE_NOTE
+CLAIMED['C04']['technique'] = 'Lean 4 reference function + closed-form invariant proof over the event loop for every serial line + exact reference monitor on the real code'
+_cut('C06', 'NOT proved as one trace theorem', 'CLOSED WORLD (Props/C06W.lean, C06T.lean): the timer invariant (exactly one live finish event per part in process, pending '
+     'iff operational) in every reachable state, assertions_unreachable, and the run-level theorems cycle_time_exact '
+     '(operational time between accept and finish = the delay; finish = accept + D + downtime), timer_dies_only_by_failure, '
+     'one_part_at_a_time, produced_record_exact. Tie: operational-time and source-cycle monitors, correspondence, and the '
+     'implementation-only family with re-entrant shutdown callbacks.')
+_cut('C13', 'NOT proved as an invariant of the', 'CLOSED WORLD (Props/C06W.lean): upInv_reachable, uptime_integrates, utilization_integrates in every reachable state. Tie: '
+     'integrating monitor, deep-copy probe, maintainer monitor, correspondence (incl. machines created while running), and '
+     'the implementation-only family with re-entrant shutdown callbacks.')
+_cut('C15', 'NOT proved: the counter', 'CLOSED WORLD (Props/C15W.lean): supplied_count_reachable, received_count_reachable, last_level_reachable, '
+     'last_resource_reachable, records_stamped_now, log_sorted_reachable in every reachable state of NoCreate worlds. Tie: '
+     'monitor after every event, correspondence of the full record stream.')
+_add('C14', 'CLOSED WORLD (Props/C14W.lean): world_run_split (run d1 then d2 = run d1+d2 up to event uids, every field), '
+     'uid_irrelevant / uid_renumbering, weights_only_break_ties (a different weight function changes nothing as long as the '
+     'popped event is alone in its time-priority class), exec_queue_blind.')
+_add('C18', 'CLOSED WORLD (Props/C18W.lean): pending_transition (exactly one live transition event, due at t0 + T k), '
+     'records_timetable_prefix, transition_step (one action call per registered object, in order), no_acts_elsewhere in every '
+     'reachable world; eight checked counterexamples show the static class necessary.')
+_add('C19', 'CLOSED WORLD (Props/C19W.lean): periodic_sensor_reachable (samples at t0 + k*interval with the values of that moment, one '
+     'callback result each, exactly one pending event), series_reachable, output_sensor_reachable / decision_pattern.')
+CLAIMED['C16']['text'] = CLAIMED['C16']['text'].replace(' (partial: sites not theorems)', ' (the site amounts are theorems of the closed-world layer below)')
+CLAIMED['C20']['note'] = BASE_NOTE + ' The late-creation clause: create_started / create_commutes / late_processor_bookkeeping for the model (group specs: registration and single initialisation only); tie to the code by correspondence on families sys, sysm and the implementation-only family sysi.'
